@@ -101,6 +101,7 @@ typedef struct {
     m_evt_ps_t msg;
     m_ps_flags flags;
     ev_src_t *sub;
+    size_t *autofree_refs;  // M_PS_AUTOFREE: number of copies of the message (one for each recipient) sharing msg.data
 } ps_priv_t;
 
 extern const char *src_names[];
